@@ -21,7 +21,7 @@ EXPLANATION = (
     "removed again)."
 )
 NOT_DECIDED = ("that each unsafe site is individually correct (Miri's domain); full leak / double-drop freedom of the unsafe code; the dense "
-               "storage's swap_remove bookkeeping; values queued in user closures")
+               "storage's swap_remove bookkeeping; values queued in user closures R1 accepts the mask-driven walk (for id in has.iter() { slot(id) .. }) beside the slot-driven walk under has.contains.")
 TRUSTED = ["rustc nightly MIR and drop elaboration", "core::mem / MaybeUninit / ptr primitive semantics by name", "sa/ analyses"]
 LEVEL_TEXT = ("Clause only: for the storages that manage memory by hand the rules decide on all paths that clean() destroys exactly the slots the "
               "mask names, that insert/remove forget/materialise symmetrically, that teardown reaches clean, and that no other code uses "
